@@ -15,9 +15,24 @@ import (
 
 func fromDir(baseDir string, baseURL *url.URL) ([]*bundle.Exchange, error) {
 	es := []*bundle.Exchange{}
+	// filepath.Walk does not follow symbolic links, not even for its root: a
+	// symlinked baseDir would be visited as one non-directory entry. Walk the
+	// directory it names instead; relative paths are computed against the same
+	// resolved name.
+	if resolved, err := filepath.EvalSymlinks(baseDir); err == nil {
+		baseDir = resolved
+	}
 	err := filepath.Walk(baseDir, func(path string, info os.FileInfo, err error) error {
 		if err != nil {
 			return err
+		}
+		if info.Mode()&os.ModeSymlink != 0 {
+			// Walk does not descend into a symbolic link to a directory, and
+			// serving it like a file yields a directory listing without a
+			// status code, i.e. a bundle that cannot be read back.
+			if st, err := os.Stat(path); err == nil && st.IsDir() {
+				return fmt.Errorf("%s is a symbolic link to a directory, which is not supported", path)
+			}
 		}
 		url, err := convertPathToURL(path, baseDir, baseURL)
 		if err != nil {
